@@ -3,6 +3,8 @@ import SlVerif.Drv.Matrix
 import SlVerif.Drv.Math
 import SlVerif.Drv.Relay
 import SlVerif.Drv.Buffered
+import SlVerif.Drv.OracleIO
+import SlVerif.Drv.Dlog
 /-
   sldriver: line-protocol server around the executable models.
   request:  `<ns> <op> <args…>`           (one line)
@@ -11,13 +13,14 @@ import SlVerif.Drv.Buffered
 -/
 open SlVerif
 
-def dispatch (toks : List String) : IO String := do
+def dispatch (O : Query → IO Bytes) (toks : List String) : IO String := do
   match toks with
   | "gf" :: rest => pure ((Drv.Gf.handle rest).getD "!bad-op")
   | "mat" :: rest => pure ((Drv.Matrix.handle rest).getD "!bad-op")
   | "math" :: rest => pure ((Drv.Math.handle rest).getD "!bad-op")
   | "relay" :: rest => pure ((Drv.Relay.handle rest).getD "!bad-op")
   | "buf" :: rest => pure ((Drv.Buffered.handle rest).getD "!bad-op")
+  | "dlog" :: rest => do pure ((← Drv.Dlog.handle O rest).getD "!bad-op")
   | ["ping"] => pure "pong"
   | _ => pure "!bad-op"
 
@@ -25,7 +28,7 @@ partial def loop (hin hout : IO.FS.Stream) : IO Unit := do
   let line ← hin.getLine
   if line.isEmpty then return ()
   let toks := (line.trimAscii.toString.splitOn " ").filter (· ≠ "")
-  let r ← dispatch toks
+  let r ← dispatch (Drv.ioOracle hin hout) toks
   hout.putStrLn ("=" ++ r)
   hout.flush
   loop hin hout
